@@ -167,6 +167,7 @@ func init() {
 		"verifNoPanic": func(fr *frame, a []value) (res value) {
 			i := fr.i
 			d0 := i.depth
+			sp0 := i.sp
 			defer func() {
 				if p := recover(); p != nil {
 					tp, ok := p.(targetPanic)
@@ -174,6 +175,7 @@ func init() {
 						panic(p)
 					}
 					i.depth = d0
+					i.sp = sp0
 					i.ex.panicMsg = i.panicString(tp)
 					res = false
 				}
@@ -259,6 +261,19 @@ func init() {
 				return true
 			}
 			return false
+		},
+		"verifInSet": func(fr *frame, a []value) value {
+			set := goString(a[1])
+			tm, ok := a[0].(*Term)
+			if !ok {
+				return strings.IndexByte(set, a[0].(uint8)) >= 0
+			}
+			tt := fr.i.ex.tt
+			acc := tt.fls
+			for k := 0; k < len(set); k++ {
+				acc = tt.Or(acc, tt.Eq(tm, tt.Const(uint64(set[k]), 8)))
+			}
+			return untermKind(types.Bool, acc)
 		},
 		"verifChoice": func(fr *frame, a []value) value {
 			// an int in [0,n), concretized immediately (one path per value)
